@@ -433,6 +433,26 @@ func genExtra(r *vlib.R, tier string, emit func(string)) {
 		emit("accept " + strings.Join(ks, ","))
 	}
 	emit("accept -")
+	// the connection's drain buffer: replies of every size class staged and flushed in every order, the
+	// peer leaving at any point
+	emit("drain new")
+	sizes := []int{12, 40, 512, 2000, 4000, 8189, 8190, 8191, 20000, 65535, 65536}
+	for i := 0; i < rounds*10; i++ {
+		var toks []string
+		n := 2 + r.Intn(9)
+		for j := 0; j < n; j++ {
+			switch x := r.Intn(12); {
+			case x < 8:
+				toks = append(toks, fmt.Sprintf("s%d", vlib.Pick(r, sizes)))
+			case x < 11:
+				toks = append(toks, "f")
+			default:
+				toks = append(toks, "x")
+			}
+		}
+		toks = append(toks, "f")
+		emit("drain " + strings.Join(toks, ","))
+	}
 	// the connection cap: bursts below, at and far above it; afterwards the listener is open again
 	emit("conncap new")
 	for i := 0; i < 3; i++ {
